@@ -89,7 +89,7 @@ class Dur:
         return dur_to_string(v, self.sign == "+", zs)
 
 SUMMARY_WORDS = ["foo", "bar", "#tag", "#Tag=1", '#p="a b"', "Lunch", "meeting", "with", "é", "読む", "ß", "😀", "x y", "-", "1h", "8:00", "8:00-9:00",
-                 "2020-01-01", "(", "!)", "?", "a\tb", "\u3000z", "\u00a0", "#x=", "'q'", "\\", "<tag>", "&", "%d", "\x1b[1m", "\x00", "\x7f", "~", "�", "end.", "\u2028sep", "\x0cpage", "\x0bvt", "\u0085nel", "\u2029para", "\ufeffbom", "\u200bzw"]
+                 "2020-01-01", "(", "!)", "?", "a\tb", "\u3000z", "\u00a0", "#x=", "'q'", "\\", "<tag>", "&", "%d", "\x1b[1m", "\x00", "\x7f", "~", "�", "end.", "\u2028sep", "\x0cpage", "\x0bvt", "\u0085nel", "\u2029para", "\ufeffbom", "\u200bzw", "\\u003c", "\\u0026x\\u003e", "\\t", "\\\""]
 
 ZS = " \u00a0\u1680\u2000\u2001\u2002\u2003\u2004\u2005\u2006\u2007\u2008\u2009\u200a\u202f\u205f\u3000"
 
